@@ -16,7 +16,8 @@ def sh(cmd, cwd, timeout=1800):
 
 def confirm(wt, patch, demo, name, prop, needs):
     log = []
-    sh("git checkout -- . && rm -f zz_demo*_test.go zz_seed_demo_test.go", wt)
+    sub = "internal/hmac" if "package hmac" in open(demo).read() else "."
+    sh("git checkout -- . && rm -f zz_demo*_test.go zz_seed_demo_test.go internal/hmac/zz_demo*_test.go internal/hmac/zz_seed_demo_test.go", wt)
     patch, demo = os.path.abspath(patch), os.path.abspath(demo)
     tmp_patch, tmp_demo = "/tmp/_seed_patch.diff", "/tmp/_seed_demo_test.go"
     shutil.copy(patch, tmp_patch)
@@ -28,11 +29,11 @@ def confirm(wt, patch, demo, name, prop, needs):
         else:
             shutil.rmtree(os.path.join(wt, "out"))
     # clean tree: suite + demo pass
-    shutil.copy(tmp_demo, os.path.join(wt, "zz_seed_demo_test.go"))
-    rc, out = sh("go test -vet=off -count=1 . 2>&1 | tail -5", wt)
+    shutil.copy(tmp_demo, os.path.join(wt, sub, "zz_seed_demo_test.go"))
+    rc, out = sh("go test -vet=off -count=1 -timeout 120s ./%s 2>&1 | tail -5" % sub, wt)
     ok_clean = "ok " in out and "FAIL" not in out
     log.append(("clean tree: suite + demo", ok_clean, out[-300:]))
-    os.remove(os.path.join(wt, "zz_seed_demo_test.go"))
+    os.remove(os.path.join(wt, sub, "zz_seed_demo_test.go"))
     # patched: builds, suite passes in both tags
     rc, out = sh("git apply %s" % tmp_patch, wt)
     log.append(("git apply", rc == 0, out[-300:]))
@@ -40,11 +41,11 @@ def confirm(wt, patch, demo, name, prop, needs):
     rc2, out2 = sh("go test -vet=off -count=1 -tags debug . 2>&1 | tail -3", wt)
     ok_suite = "FAIL" not in out1 and "FAIL" not in out2 and "ok " in out1 and "ok " in out2
     log.append(("patched: existing suite passes (release+debug)", ok_suite, (out1 + out2)[-400:]))
-    shutil.copy(tmp_demo, os.path.join(wt, "zz_seed_demo_test.go"))
-    rc, out = sh("go test -vet=off -count=1 . 2>&1 | tail -15", wt)
+    shutil.copy(tmp_demo, os.path.join(wt, sub, "zz_seed_demo_test.go"))
+    rc, out = sh("go test -vet=off -count=1 -timeout 120s ./%s 2>&1 | tail -15" % sub, wt)
     ok_demo = "FAIL" in out or "panic" in out
     log.append(("patched: demo fails", ok_demo, out[-400:]))
-    sh("git checkout -- . && rm -f zz_seed_demo_test.go", wt)
+    sh("git checkout -- . && rm -f zz_seed_demo_test.go internal/hmac/zz_seed_demo_test.go", wt)
     allok = all(x[1] for x in log)
     for x in log:
         print("%-50s %s" % (x[0], "OK" if x[1] else "NOT CONFIRMED"))
@@ -68,6 +69,40 @@ def confirm(wt, patch, demo, name, prop, needs):
     return 0
 
 
+def run_scratch(name, tier="quick"):
+    """like run, but on a scratch copy of /repo (used while something else needs /repo unchanged)"""
+    d = os.path.join(SEEDED, name)
+    meta = json.load(open(os.path.join(d, "meta.json")))
+    prop = meta["property"]
+    scratch = "/tmp/seedrun-" + name
+    shutil.rmtree(scratch, ignore_errors=True)
+    evp = "/verif/evidence/%s.json" % prop
+    saved_ev = open(evp).read() if os.path.exists(evp) else None
+    sh("git worktree prune; git worktree add -q --detach %s HEAD" % scratch, "/repo")
+    try:
+        rc, out = sh("git apply %s" % os.path.join(d, "patch.diff"), scratch)
+        if rc != 0:
+            print("apply failed", out)
+            return 2
+        t0 = time.time()
+        rc, out = sh("VERIF_REPO=%s python3 vcheck.py %s %s" % (scratch, prop, tier), "/verif", timeout=7200)
+    finally:
+        sh("git worktree remove --force %s" % scratch, "/repo")
+        shutil.rmtree(scratch, ignore_errors=True)
+        if saved_ev is not None:
+            open(evp, "w").write(saved_ev)  # committed evidence always describes the unchanged tree
+    lines = [l for l in out.splitlines() if l.startswith(("VIOLATION", "INCONCLUSIVE", "OK ", "  harness"))]
+    res = {"tier": tier, "exit": rc, "wall_s": round(time.time() - t0, 1), "verdict": "detected" if rc == 1 else ("missed" if rc == 0 else "inconclusive"),
+           "output": lines[:8], "verif_commit": sh("git rev-parse --short HEAD", "/verif")[1].strip(), "applied_to": "scratch worktree of /repo HEAD (VERIF_REPO)"}
+    meta["runs"].append(res)
+    json.dump(meta, open(os.path.join(d, "meta.json"), "w"), indent=1)
+    print(name, prop, res["verdict"], "exit", rc, "%.0fs" % res["wall_s"])
+    for l in lines[:6]:
+        print("   ", l[:220])
+    shutil.rmtree(os.path.join("/verif/replays", prop), ignore_errors=True)
+    return 0
+
+
 def run(name, tier="quick"):
     d = os.path.join(SEEDED, name)
     meta = json.load(open(os.path.join(d, "meta.json")))
@@ -81,10 +116,14 @@ def run(name, tier="quick"):
         print("apply failed", out)
         return 2
     t0 = time.time()
+    evp = "/verif/evidence/%s.json" % prop
+    saved_ev = open(evp).read() if os.path.exists(evp) else None
     try:
         rc, out = sh("python3 vcheck.py %s %s" % (prop, tier), "/verif", timeout=3600)
     finally:
         sh("git checkout -- .", "/repo")
+        if saved_ev is not None:
+            open(evp, "w").write(saved_ev)
     lines = [l for l in out.splitlines() if l.startswith(("VIOLATION", "INCONCLUSIVE", "OK ", "  harness"))]
     res = {"tier": tier, "exit": rc, "wall_s": round(time.time() - t0, 1), "verdict": "detected" if rc == 1 else ("missed" if rc == 0 else "inconclusive"),
            "output": lines[:8], "verif_commit": sh("git rev-parse --short HEAD", "/verif")[1].strip()}
@@ -103,3 +142,5 @@ if __name__ == "__main__":
         sys.exit(confirm(*sys.argv[2:8]))
     if sys.argv[1] == "run":
         sys.exit(run(*sys.argv[2:4]))
+    if sys.argv[1] == "run-scratch":
+        sys.exit(run_scratch(*sys.argv[2:4]))
